@@ -60,6 +60,8 @@ type Walker struct {
 	// atCall: closures entered at the call of the struct field that holds them (Walk's first pass)
 	atCall map[*ssa.MakeClosure]bool
 	dry    bool
+	// condAltFacts memo
+	altMemo map[interface{}][]FactT
 }
 
 func newWalker(cx *Ctx) *Walker { return &Walker{cx: cx, ts: newTerms(cx)} }
@@ -1207,6 +1209,7 @@ func withEquivalents(fs []FactT) []FactT {
 
 func (w *Walker) blockFacts0(fr *Frame, b *ssa.BasicBlock, depth int) []FactT {
 	var out []FactT
+	var gated []Fact
 	for _, fct := range dominatingFacts(b) {
 		out = append(out, FactT{Text: w.ts.Of(fct.Cond, fr).LooseString(), Holds: fct.Holds, Where: fct.If.Pos()})
 		// a condition computed into a variable first (`queued := a || b; if !queued`):
@@ -1218,6 +1221,10 @@ func (w *Walker) blockFacts0(fr *Frame, b *ssa.BasicBlock, depth int) []FactT {
 				}
 				out = append(out, ft)
 			}
+		}
+		// a condition computed by helpers over a small enumeration / bit set
+		if depth < 4 && involvesEnumHelper(fct.Cond, 0) {
+			gated = append(gated, fct)
 		}
 		// verdict == accepted with verdict the constant result of a helper (or a φ of such)
 		if bo, ok := fct.Cond.(*ssa.BinOp); ok && depth < 6 && (bo.Op == token.EQL || bo.Op == token.NEQ) && (bo.Op == token.EQL) == fct.Holds {
@@ -1236,6 +1243,14 @@ func (w *Walker) blockFacts0(fr *Frame, b *ssa.BasicBlock, depth int) []FactT {
 					}
 				}
 			}
+		}
+	}
+	if len(gated) > 0 {
+		for _, ft := range w.condAltFactsJoint(fr, gated) {
+			if ft.Where == token.NoPos {
+				ft.Where = gated[len(gated)-1].If.Pos()
+			}
+			out = append(out, ft)
 		}
 	}
 	for _, cf := range callFacts(b) {
@@ -1508,6 +1523,9 @@ func (w *Walker) boolValueFacts(fr *Frame, v ssa.Value, want bool, depth int) []
 				out = append(out, w.valueEqualsFacts(fr, x, cc, depth+1)...)
 			}
 		}
+	}
+	if depth < 4 {
+		out = append(out, w.condAltFacts(fr, v, want)...)
 	}
 	// a call to another boolean helper
 	if c, ok := v.(*ssa.Call); ok && depth < 4 {
